@@ -18,7 +18,9 @@ Caches (Thermodynamics.py 101-111, MultiTherm.py 88-92):
   `_compset_cache_df[prec]`, `_matrix_cs`, `_points_cache[prec]` (tagged with the temperature the
   samples were computed at), `sampling_pDens`, `_diffusivity_cache[phase]`,
   `_compset_cache_curvature[prec]`, `_curvature_outputs[prec]`.
-Two ghost fields log, in order, every solver call (conditions + start) and every use of sampled
+Every per-phase cache is a function of the phase key (`Ph → Option …`, updated with `upd`) exactly as the
+code's dictionaries are keyed by `phase` / `precPhase`; `_matrix_cs` and the density are shared.
+Ghost fields log, in order, every solver call (conditions + start) and every use of sampled
 points (tag, temperature of the query) so that theorems can speak about all of them.
 
 Aliasing.  `local_equilibrium` returns the very list it was given, its composition sets updated in
